@@ -34,7 +34,7 @@ Fixpoint constructs (e : rexpr) : list construct :=
   | RDot r _ => constructs r
   | RCall f args => constructs f ++ es args
   | RThenCall o arg => constructs o ++ constructs arg
-  | RClosure _ b | RClosureIgn b => constructs b
+  | RClosure _ b | RClosureMove _ b | RClosureIgn b => constructs b      (* a `move` closure costs what a closure costs: nothing *)
   | RMoveThunk b => KMoveThunk :: constructs b
   | RNot e | RRef e | ROk e => constructs e
   | RIfLetSome _ s t e => KIfLetSome :: constructs s ++ constructs t ++ constructs e
@@ -143,6 +143,10 @@ Section Inv.
   Proof. unfold okE. cbn [constructs]. intros. apply Forall_app; auto. Qed.
   Lemma okE_RClosure x b : okE b -> okE (RClosure x b).
   Proof. unfold okE. cbn [constructs]. auto. Qed.
+  Lemma okE_RClosureMove x b : okE b -> okE (RClosureMove x b).
+  Proof. unfold okE. cbn [constructs]. auto. Qed.
+  Lemma okE_wrapper_closure cfg b : okE b -> okE (wrapper_closure cfg b).
+  Proof. unfold wrapper_closure. destruct (is_async cfg && is_spawn cfg); unfold okE; cbn [constructs]; auto. Qed.
   Lemma okE_RClosureIgn b : okE b -> okE (RClosureIgn b).
   Proof. unfold okE. cbn [constructs]. auto. Qed.
   Lemma okE_RMoveThunk b : Q KMoveThunk -> okE b -> okE (RMoveThunk b).
@@ -186,7 +190,7 @@ Section Inv.
 
   Hint Resolve okE_RUser okE_RVar okE_RUsize okE_RBool okE_RUnreachable okE_RBlock okE_RAsyncMove okE_RAwait
        okE_RBoxPin okE_RTuple okE_RArray okE_RField okE_RMeth okE_RGlue okE_RDot okE_RCall okE_RThenCall
-       okE_RClosure okE_RClosureIgn okE_RMoveThunk okE_RNot okE_RRef okE_ROk okE_RIfLetSome okE_RMatchIdx
+       okE_RClosure okE_RClosureMove okE_wrapper_closure okE_RClosureIgn okE_RMoveThunk okE_RNot okE_RRef okE_ROk okE_RIfLetSome okE_RMatchIdx
        okE_RMatchOk okE_RJoinMac okE_RJuxt okS_SLet okS_SExpr okS_SFn okS_STbFn okS_SSpawnTokioFn
        okS_SUseFutures okSs_nil okSs_cons okSs_app okEs_nil okEs_cons : okc.
 
@@ -271,7 +275,7 @@ Section Inv.
   Proof.
     intros [Hd Hs]. unfold wrap_last.
     destruct (a_stk a) as [|[prev w0] [|[cur [w|]] rest]]; try discriminate.
-    destruct (replace_inner (p_comb w) [RClosure n_v prev]) as [args|] eqn:Er; [|discriminate].
+    destruct (replace_inner (p_comb w) [wrapper_closure cfg prev]) as [args|] eqn:Er; [|discriminate].
     intros H. inv_bind H. destruct x as [ds' s]. inversion H; subst.
     inversion Hs as [|? ? Hprev Hs']; subst. inversion Hs' as [|? ? Hcur Hrest]; subst. cbn [fst] in *.
     assert (Hargs : okEs args).
@@ -340,7 +344,7 @@ End Inv.
 
 #[export] Hint Resolve okE_RUser okE_RVar okE_RUsize okE_RBool okE_RUnreachable okE_RBlock okE_RAsyncMove okE_RAwait
      okE_RBoxPin okE_RTuple okE_RArray okE_RField okE_RMeth okE_RGlue okE_RDot okE_RCall okE_RThenCall
-     okE_RClosure okE_RClosureIgn okE_RMoveThunk okE_RNot okE_RRef okE_ROk okE_RIfLetSome okE_RMatchIdx
+     okE_RClosure okE_RClosureMove okE_wrapper_closure okE_RClosureIgn okE_RMoveThunk okE_RNot okE_RRef okE_ROk okE_RIfLetSome okE_RMatchIdx
      okE_RMatchOk okE_RJoinMac okE_RJuxt okS_SLet okS_SExpr okS_SFn okS_STbFn okS_SSpawnTokioFn
      okS_SUseFutures okSs_nil okSs_cons okSs_app okEs_nil okEs_cons : okc.
 
